@@ -253,6 +253,14 @@ func (w *W) load(s *State, p PtrV) Value {
 					panic(r)
 				}
 			}()
+			if p.SymLen > 8 {
+				el := make([]Value, p.SymLen)
+				for i := range el {
+					el[i] = getPath(root, ptrPathWith(p, i))
+				}
+				res = iteRuns(p.SymIdx, el)
+				return
+			}
 			res = getPath(root, ptrPathWith(p, p.SymLen-1))
 			for i := p.SymLen - 2; i >= 0; i-- {
 				res = iteValue(Eq(p.SymIdx, ConstI(int64(i), p.SymIdx.S.W)), getPath(root, ptrPathWith(p, i)), res)
